@@ -422,6 +422,10 @@ oscore_cbor_strip_value(const uint8_t **data, size_t *buf_len, uint8_t **result,
   const uint8_t *st_data = *data;
   size_t size = oscore_cbor_skip_value(data, buf_len);
   *result = coap_malloc_type(COAP_STRING, size);
+  if (!*result) {
+    *len = 0;
+    return 0;
+  }
   for (uint16_t qq = 0; qq < size; qq++)
     (*result)[qq] = st_data[qq];
   *len = size;
